@@ -215,22 +215,26 @@ End BaselineMrMr.
 (* ------------------------------------------------------------------------------------ *)
 (** * pipeline: the raw slice of the survey tensor *)
 
-(* counts_with_missings[_slice_idx_expr(cube, slice_idx)]: slice_idx (the RANK k among the valid
-   table elements) is used as a RAW offset *)
+(* the payload offset of the k-th valid table element
+   (CubeMeasures.unconditional_cube_counts: cube.dimensions[0].valid_elements.element_idxs[k]) *)
+Definition toffset (tv : tvar) (k : nat) : nat :=
+  match tv with None => k | Some (_, _, ms) => nth k (valid_idxs ms) 0 end.
+
+(* counts_with_missings[_slice_idx_expr(cube, table offset)] *)
 Definition raw_slice_of (tv : tvar) vr kr mr vc kc mc (S : survey) (k : nat) : tensor :=
   let ds := cube_dims tv kr mr kc mc in
-  slice_at (length (apparent ds)) (t_is_mr tv) k (raw_of (cube_vars tv vr kr vc kc) S).
+  slice_at (length (apparent ds)) (t_is_mr tv) (toffset tv k) (raw_of (cube_vars tv vr kr vc kc) S).
 
-(* the sub-population the raw slice is about: table element at RAW offset k *)
-Definition pop_at_offset (tv : tvar) (k : nat) (r : resp) : bool :=
+(* the sub-population a raw slice is about: table element at RAW offset o *)
+Definition pop_at_offset (tv : tvar) (o : nat) (r : resp) : bool :=
   match tv with
   | None => true
-  | Some (v, kd, ms) => contributes kd (ans r v) (match kd with KCat => [k] | _ => [k; 0] end)
+  | Some (v, kd, ms) => contributes kd (ans r v) (match kd with KCat => [o] | _ => [o; 0] end)
   end.
 
 Lemma raw_slice_of_spec tv vr kr mr vc kc mc S k :
   t_ok tv -> cat_or_mr kr -> cat_or_mr kc ->
-  raw_spec S (pop_at_offset tv k) [(vr, kr); (vc, kc)] (raw_slice_of tv vr kr mr vc kc mc S k).
+  raw_spec S (pop_at_offset tv (toffset tv k)) [(vr, kr); (vc, kc)] (raw_slice_of tv vr kr mr vc kc mc S k).
 Proof.
   intros Ht Hr Hc idx.
   destruct tv as [[[vt kt] mt]|]; simpl in Ht.
@@ -238,15 +242,13 @@ Proof.
   - destruct Hr as [-> | ->], Hc as [-> | ->]; reflexivity.
 Qed.
 
-(* no missing table element sits before the k-th valid one: rank = raw offset *)
-Definition rank_is_offset (tv : tvar) (k : nat) : Prop :=
-  match tv with None => True | Some (_, _, ms) => nth k (valid_idxs ms) 0 = k end.
-
+(* the raw slice at the table offset is about exactly the respondents of the k-th VALID table
+   element, wherever missing table elements sit *)
 Lemma pop_at_offset_eq tv k r :
-  t_ok tv -> k < t_n tv -> rank_is_offset tv k -> pop_at_offset tv k r = pop_of tv k r.
+  t_ok tv -> k < t_n tv -> pop_at_offset tv (toffset tv k) r = pop_of tv k r.
 Proof.
-  intros Ht Hk Hrank. rewrite <- (pop_raw_eq tv k r Ht Hk).
-  destruct tv as [[[v kd] ms]|]; [|reflexivity]. simpl in *. rewrite Hrank. reflexivity.
+  intros Ht Hk. rewrite <- (pop_raw_eq tv k r Ht Hk).
+  destruct tv as [[[v kd] ms]|]; reflexivity.
 Qed.
 
 Definition kmr (k : kind) : bool := match k with KMr => true | _ => false end.
@@ -262,8 +264,6 @@ Section BaselineDispatch.
   Hypothesis Hr : cat_or_mr kr.
   Hypothesis Hc : cat_or_mr kc.
   Hypothesis Hk : k < t_n tv.
-  (* 3-D: the rank of the table element among the valid ones is its raw offset *)
-  Hypothesis Hrank : rank_is_offset tv k.
   (* categorical columns: every respondent's column answer is in the payload *)
   Hypothesis Hcol : kc = KCat -> col_total S vc (length mc).
   (* MR x MR: the code reads row item i at raw offset i *)
@@ -275,10 +275,10 @@ Section BaselineDispatch.
              (Fin (wsum S (fun r => pop_of tv k r && ok_el kr mr (ans r vr) i))).
   Proof.
     intros Hi.
-    transitivity (xdiv (Fin (wsum S (fun r => pop_at_offset tv k r && in_el kr mr (ans r vr) i)))
-                       (Fin (wsum S (fun r => pop_at_offset tv k r && ok_el kr mr (ans r vr) i)))).
+    transitivity (xdiv (Fin (wsum S (fun r => pop_at_offset tv (toffset tv k) r && in_el kr mr (ans r vr) i)))
+                       (Fin (wsum S (fun r => pop_at_offset tv (toffset tv k) r && ok_el kr mr (ans r vr) i)))).
     2:{ apply xdiv_Proper; simpl; apply wsum_ext; intros r _;
-        rewrite (pop_at_offset_eq tv k r Ht Hk Hrank); reflexivity. }
+        rewrite (pop_at_offset_eq tv k r Ht Hk); reflexivity. }
     pose proof (raw_slice_of_spec tv vr kr mr vc kc mc S k Ht Hr Hc) as HW.
     destruct Hr as [Er | Er], Hc as [Ec | Ec]; subst kr kc; simpl kmr; simpl baseline_of;
       simpl in_el; simpl ok_el.
@@ -322,58 +322,32 @@ Proof.
 Qed.
 
 (* ------------------------------------------------------------------------------------ *)
-(** * the 3-D witness: rank of the table element <> its raw offset *)
+(** * the 3-D witness of the REPAIRED defect C16-3d-baseline-wrong-table: a missing table category
+   before the valid one.  The code used to take the baseline from the missing category's table
+   (index = inf); it now reports 100 where the row shares equal the column proportions. *)
 
 Definition c16_witness : survey :=
   [ mkResp [ACat 0; ACat 0; ACat 0] 10;
     mkResp [ACat 1; ACat 0; ACat 0] 1; mkResp [ACat 1; ACat 0; ACat 1] 1;
     mkResp [ACat 1; ACat 1; ACat 0] 3; mkResp [ACat 1; ACat 1; ACat 1] 3 ].
 
-Lemma c16_refuted_proof :
+Lemma c16_former_witness :
   let S := c16_witness in
   let tv : tvar := Some (0, KCat, [true; false]) in
   let mr := [false; false] in
   let mc := [false; false] in
   t_ok tv /\ 0 < t_n tv /\ wf_survey S /\ col_total S 2 (length mc) /\
-  ~ rank_is_offset tv 0 /\
+  toffset tv 0 <> 0 /\
   (let V := slice_of tv 1 KCat mr 2 KCat mc S 0 in
    column_index_cell (counts_of V CCat CCat 1 0)
                      (column_bases_of V (nval mr) (length mrv) CCat CCat 1 0)
                      (baseline_of (raw_slice_of tv 1 KCat mr 2 KCat mc S 0) (valid_idxs mr) (length mc) 3
                                   false false 1 0)
-   = Inf false) /\
-  xmul (Fin 100%Q)
-    (xdiv (xdiv (Fin (wsum S (fun r => pop_of tv 0 r && in_el KCat mr (ans r 1) 1 && in_el KCat mc (ans r 2) 0)))
-                (Fin (wsum S (fun r => pop_of tv 0 r && ok_el KCat mr (ans r 1) 1 && in_el KCat mc (ans r 2) 0))))
-          (xdiv (Fin (wsum S (fun r => pop_of tv 0 r && in_el KCat mr (ans r 1) 1)))
-                (Fin (wsum S (fun r => pop_of tv 0 r && ok_el KCat mr (ans r 1) 1)))))
-  =x= Fin 100%Q.
+   =x= Fin 100%Q).
 Proof.
   cbv zeta. split; [left; reflexivity|]. split; [vm_compute; lia|].
   split; [repeat constructor; discriminate|].
   split; [intros r Hr; repeat (destruct Hr as [<- | Hr]; [reflexivity|]); destruct Hr|].
   split; [vm_compute; discriminate|].
-  split; vm_compute; reflexivity.
-Qed.
-
-
-Lemma c16_refuted_witness :
-  exists (S : survey) (tv : tvar) (mr mc : list bool),
-    t_ok tv /\ 0 < t_n tv /\ wf_survey S /\ col_total S 2 (length mc) /\
-    ~ rank_is_offset tv 0 /\
-    (let V := slice_of tv 1 KCat mr 2 KCat mc S 0 in
-     column_index_cell (counts_of V CCat CCat 1 0)
-                       (column_bases_of V (nval mr) (length mrv) CCat CCat 1 0)
-                       (baseline_of (raw_slice_of tv 1 KCat mr 2 KCat mc S 0) (valid_idxs mr) (length mc) 3
-                                    false false 1 0)
-     = Inf false) /\
-    xmul (Fin 100%Q)
-      (xdiv (xdiv (Fin (wsum S (fun r => pop_of tv 0 r && in_el KCat mr (ans r 1) 1 && in_el KCat mc (ans r 2) 0)))
-                  (Fin (wsum S (fun r => pop_of tv 0 r && ok_el KCat mr (ans r 1) 1 && in_el KCat mc (ans r 2) 0))))
-            (xdiv (Fin (wsum S (fun r => pop_of tv 0 r && in_el KCat mr (ans r 1) 1)))
-                  (Fin (wsum S (fun r => pop_of tv 0 r && ok_el KCat mr (ans r 1) 1)))))
-    =x= Fin 100%Q.
-Proof.
-  exact (ex_intro _ c16_witness (ex_intro _ (Some (0, KCat, [true; false]))
-          (ex_intro _ [false; false] (ex_intro _ [false; false] c16_refuted_proof)))).
+  vm_compute; reflexivity.
 Qed.
